@@ -115,7 +115,15 @@ def check(chk: Check) -> None:
             numeric_entry = True
             src = N.unbounded_int_source(arg)
             if src is not None:
-                rets['exact Decimal of ' + N.source_kind(arg)] = (
+                # the circumstances under which the unbounded source is reached are part of the finding: `round` without digits is
+                # one thing, digits that were given but are dropped on the way (`nd or DEFAULT` for nd = 0) another
+                params_ = [a.arg for a in fi.node.args.args]
+                conds_ = sorted(('%s' if v_ else 'not %s') % show(c_) for c_, v_, _ in p.assumptions
+                                if any(om.mentions(freeze(c_), ('param', pn_)) for pn_ in params_[1:]))
+                plain_ = all(isinstance(freeze(c_), tuple) and freeze(c_)[:2] == ('cmp', 'is') and freeze(c_)[3] == ('const', None) and v_
+                             for c_, v_, _ in p.assumptions if any(om.mentions(freeze(c_), ('param', pn_)) for pn_ in params_[1:]))
+                guard_ = '' if plain_ or not conds_ else ' [reached when %s]' % ' and '.join(conds_)[:120]
+                rets['exact Decimal of ' + N.source_kind(arg) + guard_] = (
                     False, 'returns Decimal(%s): the constructor is exact, so the digits of unbounded number escape un-rounded '
                            '(e.g. a 1-digit Decimal with exponent 99999 becomes a 100000-digit number)' % src)
             else:
@@ -151,6 +159,13 @@ def check(chk: Check) -> None:
                                         'is the context-rounded Decimal operation') if bad4 else
                     'inherits *, ** from %s and has no __index__' % ', '.join(bases))
     N.number_constructor(chk, R4)
+    # ... and the numbers programs write are those Decimals: the numeral's value reaches the literal node and its result unchanged
+    # (an interning table keyed by == hands the int-like True out for the literal 1, and `n *= n` on it is Python int arithmetic)
+    from .c08 import literal_carries_numeral, number_token
+    from .. import ctx as C_
+    lm_ = C_.lexmodel(F)
+    NUM_ = number_token(lm_)
+    literal_carries_numeral(chk, R4, NUM_, '%s:%d' % (lm_.spec.module.rel, lm_.rules[NUM_].rule.line))
     if n4 == 0:
         chk.ok(R4, 'number classes', 'smartquery/custom_types.py', 'the package defines no subclass of a numeric type')
 
